@@ -3,6 +3,8 @@ package sym
 import (
 	"fmt"
 	"go/types"
+	"os"
+	"strconv"
 	"strings"
 	"sync"
 
@@ -19,6 +21,7 @@ type Engine struct {
 
 	mu     sync.Mutex
 	fnInfo map[*ssa.Function]*fnInfo
+	qcache sync.Map // canonical query text -> smt.Result (shared by all workers)
 
 	// type handles
 	tAny, tFloat64, tInt64, tString, tBool, tSliceAny, tMapAny, tJSONNumber types.Type
@@ -97,6 +100,7 @@ type Path struct {
 	models  []*cachedModel
 	known   map[int]bool  // term id -> truth value implied syntactically by the path condition
 	KnownHits int
+	QCacheHits int
 	varsOf  map[int][]int // term id -> sorted variable ids
 	Sliced  int
 	CacheHits int
@@ -459,6 +463,16 @@ func (p *Path) feasible(cond *smt.Term) smt.Result {
 		}
 		return smt.Unsat
 	}
+	if sc := p.simplify(cond); sc != cond {
+		if v, ok := sc.BoolVal(); ok {
+			p.KnownHits++
+			if v {
+				return smt.Sat
+			}
+			return smt.Unsat
+		}
+		cond = sc
+	}
 	asserted := p.S.Asserted()
 	keep := p.models[:0]
 	hit := false
@@ -486,6 +500,133 @@ func (p *Path) feasible(cond *smt.Term) smt.Result {
 		p.CacheHits++
 		return smt.Sat
 	}
+	sl := p.pcSlice(cond)
+	key := canonKey(cond, sl)
+	if v, ok := p.E.qcache.Load(key); ok {
+		p.QCacheHits++
+		return v.(smt.Result)
+	}
 	p.Sliced++
-	return p.S.CheckSet(p.pcSlice(cond), cond)
+	r := p.S.CheckSet(sl, cond)
+	if r != smt.Unknown {
+		p.E.qcache.Store(key, r)
+	}
+	if logQ != nil {
+		var sb strings.Builder
+		fmt.Fprintf(&sb, "%v | %s", r, cond.String())
+		for _, a := range sl {
+			sb.WriteString(" || " + a.String())
+		}
+		logQ(sb.String())
+	}
+	return r
+}
+
+// simplify rewrites t under the syntactically known facts of this path.
+func (p *Path) simplify(t *smt.Term) *smt.Term {
+	if len(p.known) == 0 {
+		return t
+	}
+	memo := map[int]*smt.Term{}
+	var walk func(x *smt.Term) *smt.Term
+	walk = func(x *smt.Term) *smt.Term {
+		if x.Leaf() {
+			if x.Sort.K == smt.KBool && x.Op == smt.OVar {
+				if v, ok := p.known[x.ID]; ok {
+					return p.C.Bool(v)
+				}
+			}
+			return x
+		}
+		if r, ok := memo[x.ID]; ok {
+			return r
+		}
+		if x.Sort.K == smt.KBool {
+			if v, ok := p.known[x.ID]; ok {
+				r := p.C.Bool(v)
+				memo[x.ID] = r
+				return r
+			}
+		}
+		changed := false
+		args := make([]*smt.Term, len(x.Args))
+		for i, a := range x.Args {
+			args[i] = walk(a)
+			if args[i] != a {
+				changed = true
+			}
+		}
+		r := x
+		if changed {
+			r = p.C.Rebuild(x, args)
+		}
+		memo[x.ID] = r
+		return r
+	}
+	return walk(t)
+}
+
+var logQ func(string)
+
+func init() {
+	if f := os.Getenv("GOSYMX_LOGQ"); f != "" {
+		fh, err := os.Create(f)
+		if err == nil {
+			var mu sync.Mutex
+			logQ = func(s string) { mu.Lock(); fh.WriteString(s + "\n"); mu.Unlock() }
+		}
+	}
+}
+
+// canonKey serialises a query (condition + relevant path-condition slice) up
+// to renaming of variables, so that structurally identical queries met on
+// different paths share one solver call.
+func canonKey(cond *smt.Term, sl []*smt.Term) string {
+	var sb strings.Builder
+	ids := map[int]int{}
+	vars := map[string]int{}
+	var walk func(t *smt.Term) int
+	walk = func(t *smt.Term) int {
+		if n, ok := ids[t.ID]; ok {
+			return n
+		}
+		args := make([]int, len(t.Args))
+		for i, a := range t.Args {
+			args[i] = walk(a)
+		}
+		n := len(ids)
+		ids[t.ID] = n
+		sb.WriteByte('(')
+		sb.WriteString(strconv.Itoa(int(t.Op)))
+		sb.WriteByte(' ')
+		sb.WriteString(strconv.Itoa(int(t.Sort.K)))
+		sb.WriteByte(':')
+		sb.WriteString(strconv.Itoa(t.Sort.W))
+		sb.WriteByte(' ')
+		sb.WriteString(strconv.FormatUint(t.U, 16))
+		if t.Op == smt.OVar {
+			v, ok := vars[t.Name]
+			if !ok {
+				v = len(vars)
+				vars[t.Name] = v
+			}
+			sb.WriteString(" v")
+			sb.WriteString(strconv.Itoa(v))
+		} else if t.Name != "" {
+			sb.WriteByte(' ')
+			sb.WriteString(t.Name)
+		}
+		for _, a := range args {
+			sb.WriteByte(' ')
+			sb.WriteString(strconv.Itoa(a))
+		}
+		sb.WriteByte(')')
+		return n
+	}
+	sb.WriteString(strconv.Itoa(walk(cond)))
+	for _, a := range sl {
+		sb.WriteByte('|')
+		sb.WriteString(strconv.Itoa(walk(a)))
+	}
+	return sb.String()
 }
